@@ -105,31 +105,35 @@ def r6_3(ctx):
         kind = "facility" if s.facility is not None else "worker-only"
         con = construct(f, f"greedy-{kind}")
         ctx.instance(f"{con}#{i}", sample={"exit": s.exit[0] if s.exit else "continue-loop", "loops": [l.iter_text for l in s.loops]})
+        def early_exit_without_allocation(wl, what):
+            for tr, ex in wl.alts:
+                if ex is not None and ex[0] in ("break", "return") and not any(isinstance(e, Mut) and e.attr == "allocated_worker_list" for e in tr):
+                    ctx.violation(con + ":candidate-loop-early-exit", wl.loc,
+                                  f"the loop over {what} can be left by `{ex[0]}` on a path that allocates nobody: later candidates are never looked at and stay FREE "
+                                  f"although the task would accept them")
         if kind == "worker-only":
-            if s.exit is not None and s.exit[0] in ("break", "return"):
+            if s.worker_loop is None:
+                ctx.violation(con + ":stops-after-first-worker", s.ev["task<-worker"].loc,
+                              "a task that needs no facility takes one picked worker instead of looping over all eligible free workers: further eligible free workers stay idle")
+                continue
+            if s.exit is not None and s.exit[0] in ("break", "return") and s.loops[-1] is s.worker_loop:
                 ctx.violation(con + ":stops-after-first-worker", s.ev["task<-worker"].loc,
                               "the worker loop of a task that needs no facility stops after the first allocation: further eligible free workers stay idle")
             # no alternative of that candidate loop may leave it early: a candidate that is rejected (solo flag, fixed IDs ...)
             # says nothing about the candidates after it
-            wl = s.loops[-1]
-            for tr, ex in wl.alts:
-                if ex is not None and ex[0] in ("break", "return") and not any(isinstance(e, Mut) and e.attr == "allocated_worker_list" for e in tr):
-                    ctx.violation(con + ":candidate-loop-early-exit", wl.loc,
-                                  f"the loop over eligible free workers can be left by `{ex[0]}` on a path that allocates nobody: later candidates are never looked at and stay FREE "
-                                  f"although the task would accept them")
+            early_exit_without_allocation(s.worker_loop, "eligible free workers")
         else:
-            # the facility loop must go on to the next facility
-            if len(s.loops) < 3:
-                ctx.violation(con + ":shape", s.ev["task<-worker"].loc, "facility allocation is not nested as task > facility > worker loops")
+            # one worker per facility, every free facility visited: the facility must be a loop variable inside the task loop; the
+            # worker is either the variable of a candidate loop inside it or the first element picked from the candidate list
+            if s.facility_loop is None or s.task_loop is None or (s.worker_loop is None and s.pick is None):
+                ctx.violation(con + ":shape", s.ev["task<-worker"].loc, "facility allocation is not nested as task > facility > worker candidates")
                 continue
-            floop = s.loops[-2]
+            floop = s.facility_loop
             for tr, ex in floop.alts:
                 if ex is not None and ex[0] in ("break", "return"):
                     ctx.violation(con + ":stops-after-first-facility", floop.loc, "the facility loop can be left early: other free facilities of the workplace stay idle")
-            wl = s.loops[-1]
-            for tr, ex in wl.alts:
-                if ex is not None and ex[0] in ("break", "return") and not any(isinstance(e, Mut) and e.attr == "allocated_worker_list" for e in tr):
-                    ctx.violation(con + ":candidate-loop-early-exit", wl.loc, f"the loop over candidate workers of a facility can be left by `{ex[0]}` without allocating anybody")
+            if s.worker_loop is not None:
+                early_exit_without_allocation(s.worker_loop, "candidate workers of a facility")
     tl = [e for tr0, _ex0 in _I.all_traces for e in tr0 if isinstance(e, Loop) and e.elem_cls == TASK]
     for lp in tl:
         for tr, ex in lp.alts:
